@@ -125,7 +125,7 @@ def run(prog, rep, tier):
             if isinstance(dn, ast.Constant):
                 return dn.value
             if isinstance(dn, ast.Name):
-                k_ = prog.lookup("%s.%s" % (f.module.name, dn.id))
+                k_ = prog.lookup("%s.%s" % (f.public_module.name, dn.id))
                 if k_[0] == "global" and isinstance(k_[2], ast.Constant):
                     return k_[2].value
             return None
